@@ -372,7 +372,7 @@ def check_boundaries(P, f, prov, tag, caps, callsem, pointfam=False, names_only=
             try:
                 if bp.oshape == () and tuple(b.output_shape()) == (1,):
                     bp = bp.with_component_axis()
-                    P.notes.add("boundary of a scalar %s has output shape (1,)" % type(b).__name__)
+                    P.notes.add("boundary: scalar-valued %s returned with output shape (1,) instead of ()" % type(b).__name__)
             except Exception:
                 pass
             # the restriction itself: coefficient slicing must give the parent's values on that side
